@@ -32,12 +32,24 @@ theorem sample_state (n dur : Int) (h : List Point) :
   have := sample_fold n dur h none
   simpa [foldG] using this
 
+/-- `t.Equal(t.Truncate(d))` says "t is a multiple of d counted from Go's zero time". -/
+theorem truncate_fixed_iff (t d : Int) : (Kap.C16.goTruncate t d == t) = onGoBoundary t d := by
+  unfold Kap.C16.goTruncate onGoBoundary
+  by_cases hd : d ≤ 0
+  · simp [hd]
+  · simp only [hd, if_false, decide_false, Bool.false_or]
+    by_cases hm : (t + Kap.C16.zeroOff) % d = 0
+    · show ((t - (t + Kap.C16.zeroOff) % d == t) = ((t + Kap.C16.zeroOff) % d == 0))
+      rw [hm]; simp
+    · have : t - (t + Kap.C16.zeroOff) % d ≠ t := by omega
+      rw [beq_eq_false_iff_ne.mpr this, beq_eq_false_iff_ne.mpr hm]
+
 theorem sampleStream_eq (n dur : Int) (ps : List Point) : sampleStream n dur ps = specSample n dur ps := by
   unfold sampleStream specSample
   rw [runGrouped_eq_perGroup]
   apply perGroup_congr
   intro h p
-  simp only [sample_state, sampleStep, shouldKeep]
+  simp only [sample_state, sampleStep, shouldKeep, truncate_fixed_iff]
 
 /-! ### stateCount / stateDuration -/
 
